@@ -141,7 +141,8 @@ class Scan:
 
     # ------------------------------------------------------------------ helpers
     def add(self, file, name, site, kind, key, after):
-        k = (name, kind, site) if kind in ("inPlaceClassAttr", "inPlaceCacheEntry", "earlyBoundClassAttr") \
+        k = (name, kind, site) if kind in ("inPlaceClassAttr", "inPlaceCacheEntry", "earlyBoundClassAttr",
+                                           "sharedReturnMutated") \
             else (name, kind)   # one row per in-place write SITE
         if k in self.rows:
             r = self.rows[k]
@@ -250,6 +251,7 @@ class Scan:
         self.pass_key_completeness()
         self.pass_cache_entry_mutation()
         self.pass_early_bound()
+        self.pass_shared_return_mutation()
         return sorted(self.rows.values(), key=lambda r: (r["file"], r["name"], r["kind"], r["site"]))
 
     # ------------------------------------------------------------------ data/control dependencies
@@ -349,6 +351,81 @@ class Scan:
                         r["key"], r["site"] = "partialArgs", f.qual
                     else:
                         self.add(file, ref, f.qual, "dict", "partialArgs", True)
+
+    def pass_shared_return_mutation(self):
+        """a function that returns a module-level / class-level mutable object itself (not a copy), directly
+        or by returning the result of such a function, hands out process-wide state; a caller that mutates
+        what it got (`x = f(); x[k] = v`) changes it for every later caller"""
+        def shared_name(f, e):
+            if isinstance(e, ast.Name) and e.id in self.module_objs and e.id not in f.all_params() \
+                    and self.local_value(f, e.id) is None:
+                return e.id
+            if isinstance(e, ast.Attribute) and isinstance(e.value, ast.Name):
+                owner = e.value.id
+                if owner in ("self", "cls") and f.cls:
+                    owner = f.cls
+                ref = owner + "." + e.attr
+                if ref in self.class_attrs and self.class_attrs[ref][1]:
+                    return ref
+            return None
+
+        def call_name(e):
+            if isinstance(e, ast.Call):
+                fn = e.func
+                return fn.id if isinstance(fn, ast.Name) else fn.attr if isinstance(fn, ast.Attribute) else None
+            return None
+
+        returns = {}
+        changed = True
+        while changed:
+            changed = False
+            for f in self.funcs:
+                if f.name in returns:
+                    continue
+                local = {}
+                for n in f.body_nodes():
+                    if isinstance(n, ast.Assign) and len(n.targets) == 1 and isinstance(n.targets[0], ast.Name):
+                        r = shared_name(f, n.value) or returns.get(call_name(n.value))
+                        if r:
+                            local[n.targets[0].id] = r
+                for n in f.body_nodes():
+                    if isinstance(n, ast.Return) and n.value is not None:
+                        v = n.value
+                        r = shared_name(f, v) or returns.get(call_name(v)) or \
+                            (local.get(v.id) if isinstance(v, ast.Name) else None)
+                        if r:
+                            returns[f.name] = r
+                            changed = True
+                            break
+        if not returns:
+            return
+        for f in self.funcs:
+            aliases = {}
+            for n in f.body_nodes():
+                if isinstance(n, ast.Assign) and len(n.targets) == 1 and isinstance(n.targets[0], ast.Name):
+                    r = returns.get(call_name(n.value))
+                    if r:
+                        aliases[n.targets[0].id] = r
+            if not aliases:
+                continue
+            for n in f.body_nodes():
+                hit = None
+                if isinstance(n, ast.Call) and isinstance(n.func, ast.Attribute) and n.func.attr in MUTATORS \
+                        and isinstance(n.func.value, ast.Name):
+                    hit = aliases.get(n.func.value.id)
+                if isinstance(n, (ast.Assign, ast.AugAssign)):
+                    for t in (n.targets if isinstance(n, ast.Assign) else [n.target]):
+                        if isinstance(t, ast.Subscript) and isinstance(t.value, ast.Name):
+                            hit = hit or aliases.get(t.value.id)
+                        if isinstance(n, ast.AugAssign) and isinstance(t, ast.Name):
+                            hit = hit or aliases.get(t.id)
+                if isinstance(n, ast.Delete):
+                    for t in n.targets:
+                        if isinstance(t, ast.Subscript) and isinstance(t.value, ast.Name):
+                            hit = hit or aliases.get(t.value.id)
+                if hit:
+                    file = (self.module_objs.get(hit) or self.class_attrs.get(hit) or (f.file,))[0]
+                    self.add(file, hit, f.qual, "sharedReturnMutated", "none", True)
 
     def pass_early_bound(self):
         """an attribute that operations write onto classes after definition (`serialize`, …) must be looked
